@@ -119,6 +119,23 @@ CHECKS["C05"] = dict(
     ref="DESIGN.md section 4 C05, section 2.2",
     technique="trace validation: recorded library evaluations checked by TLC against TraceRelation.tla")
 
+CHECKS["C10"] = dict(
+    text="Direction B: for every 2-D pairing with insertions, differences and display "
+         "transforms x TLC-generated bags, the response and its mechanically transposed twin "
+         "(dimension dicts exchanged, every payload tensor axis-permuted) are both evaluated by "
+         "the library; snapshots of all public properties are validated by TLC against the "
+         "mirror table of TraceRelation.tla (row_* <-> column_*, direction-free measures "
+         "transposed).",
+    ref="DESIGN.md section 4 C10, section 2.2",
+    technique="trace validation: recorded library evaluations checked by TLC against TraceRelation.tla (mirror)")
+CHECKS["C20"] = dict(
+    text="Smoothing.tla defines the trailing moving average, its guards and its composition "
+         "with column proportions / index / means / scale mean; series lengths 1-4 x windows "
+         "{absent, null, omitted, -1 .. periods+1} x TLC-enumerated bags (NaN periods), date "
+         "and non-date dimensions, 1-D and 2-D, with row subtotals.",
+    ref="DESIGN.md section 4 C20",
+    technique="TLA+ smoothing model, TLC enumeration, spec-behaviour replay into Cube")
+
 NOT_YET = {}
 
 
